@@ -144,6 +144,45 @@ def handle3 (cmd : String) (args : List String) : Option String :=
       | some tags, some cs => some (joinStrs (tags.map (fun t => rIntStr (mvarMetricDelta d t cs))))
       | _, _ => none
     | _, _ => none
+  | "hv.acc", [mode, kind, scalar, n, nf, gid, k, hex] =>
+    match parseInt? scalar, n.toNat?, nf.toNat?, gid.toNat?, k.toNat?, parseHex? hex with
+    | some scalar, some n, some nf, some gid, some k, some d =>
+      let kind? : Option DKind := if kind = "f" then some .fixed else if kind = "s" then some .f26dot6
+        else if kind = "i" then some .int else none
+      match kind? with
+      | none => none
+      | some kind =>
+        if mode ≠ "d" ∧ mode ≠ "s" then none else
+        match gvarRead d with
+        | none => some "eO"
+        | some g =>
+          match g.glyphVariationData gid with
+          | .err e => some (errStr e)
+          | .trap => some "trap"
+          | .ok none => some "none"
+          | .ok (some p) =>
+            match tvTrace p with
+            | none => some "fuel"
+            | some evs =>
+              match (items evs)[k]? with
+              | none => some "notuple"
+              | some t =>
+                match t.pointsAndDeltas p with
+                | none => some "trap"
+                | some (pd, dd) =>
+                  let xs : List Int := List.replicate n 7
+                  let dig := fun (l : List Int) => fnv (l.map u32OfInt)
+                  if mode = "d" then
+                    match accumulateDense kind scalar dd xs xs with
+                    | .err e => some (errStr e)
+                    | .trap => some "trap"
+                    | .ok (x, y) => some s!"ok {dig x} {dig y}"
+                  else
+                    match accumulateSparse kind scalar pd dd xs xs (List.replicate nf false) with
+                    | .err e => some (errStr e)
+                    | .trap => some "trap"
+                    | .ok (x, y, fl) => some s!"ok {dig x} {dig y} {fnv (fl.map (fun b => if b then 1 else 0))}"
+    | _, _, _, _, _, _ => none
   | "hv.avar", hex :: coords =>
     match parseHex? hex, parseInts? coords with
     | some d, some cs => some (joinStrs (cs.map (fun c => rIntStr (segmentMapsApply d c))))
